@@ -8,7 +8,7 @@ import hashlib
 import json
 import os
 
-from .ledger import Ledger, HUMAN, norm
+from .ledger import Ledger, HUMAN, norm, split_lines, _uid as _uid_re
 from .world import World
 
 
@@ -128,12 +128,21 @@ class Exec:
                 else:
                     w.write(repo, p, c)
                 self.ledger.edit(olds[p] or "", c or "", who)
-                for ln in (op.get("desc") or {}).get("moved") or []:
+                moved = (op.get("desc") or {}).get("moved") or []
+                committed = set()
+                if moved:
+                    hr0 = w.raw_git(repo, "show", "HEAD:" + p)
+                    committed = {norm(x) for x in split_lines(hr0.out)} if hr0.code == 0 else set()
+                    # (a line that is an intra-line modification of a committed line still carries that line's id:
+                    # most of its tokens are the committed author's, and a move may hand the line back to them)
+                    committed_ids = set(_uid_re.findall(hr0.out)) if hr0.code == 0 else set()
+                for ln in moved:
                     # a moved line is not a changed line; its writer or the mover may be credited - and
                     # the human, when the line was already committed (its working-log attribution is
                     # gone and git blame assigns the moved line to the new commit)
                     if self.ledger.who(ln) is not None:
-                        self.ledger.authors[norm(ln)].update((who, HUMAN))
+                        was_committed = norm(ln) in committed or any(u in committed_ids for u in _uid_re.findall(ln))
+                        self.ledger.authors[norm(ln)].update((who, HUMAN) if was_committed else (who,))
                 if olds[p] and c:
                     hr = w.raw_git(repo, "show", "HEAD:" + p)
                     if hr.code == 0:
